@@ -1384,6 +1384,8 @@ func main() {
 
 	// ---- 3. hostile length prefixes, child process under ulimit -v ----
 	hostile(rep)
+	// ---- 4. a subscriber of /events that stops reading while the node commits more than its buffer holds ----
+	eventsSlowClient(rep, 1100)
 
 	if un := logs.unattributed(); len(un) > 0 {
 		rep.Eval(1)
